@@ -508,9 +508,11 @@ class _WeightsRule:
 
 
 def weights_seen(ctx: Ctx):
+    from ..inline import with_inlined
+
     res = ctx.res
     for q, w, fs in WEIGHTED_DRIVERS:
-        f = ctx.repo.func(q)
+        f = with_inlined(ctx.repo, ctx.repo.func(q), kinds=("nested",))  # the absorption may be a local helper
         stores = [s for s in own_scope_nodes(f.node) if isinstance(s, ast.Assign) and any(isinstance(n, ast.Name) and n.id == w and isinstance(n.ctx, ast.Store) for t in s.targets for n in ast.walk(t))]
         if not stores:
             raise AnalysisError(f"WEIGHTS-SEEN: `{w}` is never assigned in {q}; the driver table is stale")
